@@ -148,7 +148,7 @@ def main(run):
                 "1/2, 3/4, 1-2^-53, plus p and p+-ulp for the geometric acceptance) for small capacities / short streams, "
                 "(b) seeded long streams with capacities up to 1000, (c) streams in which the same dict object arrives repeatedly or distinct objects carry equal values (multiset invariant by identity); invariant (sub-multiset by identity, count = "
                 "min(seen,capacity), targets aligned / absent, order for Batch/Interval/Sequence, stored dicts unmodified) "
-                "checked after every update through len()/get_data() only; evaluations = invariant evaluations; "
+                "checked after every update through len()/get_data() only; (d) storages driven through IncrementalSage / IncrementalPFI / IntervalSage / BatchSage with callbacks failing at random positions: after every call the content must follow from the update calls seen at the storage boundary; evaluations = invariant evaluations; "
                 "non-trivial = distinct (step, stored index tuple) outcomes after the storage filled")
     run.assumptions = ["enumeration is exhaustive only for the bounded spaces listed in notes.enumerated"]
     run.require("ixai/storage/uniform_reservoir_storage.py:UniformReservoirStorage.update",
